@@ -20,7 +20,7 @@ fi
 
 # which binary variant does this check need
 case "$ID" in
-  C11|C13) VARIANT=add ;;
+  C11|C13|C20) VARIANT=add ;;
   C12|C14) VARIANT=full ;;
   *) VARIANT=plain ;;
 esac
